@@ -11,7 +11,12 @@ From JR Require Skeletons.
    doCall is called from handle only *)
 Theorem c13_source_recover :
   Extracted.callsites_Call = ["doCall"]%string /\ Extracted.callsites_doCall = ["handle"]%string /\
-  Extracted.doCall_first_stmt_is_deferred_recover = true.
+  Extracted.doCall_first_stmt_is_deferred_recover = true /\
+  (* connections and calls share no mutable package-level state: the package-level variables are these (none is a map,
+     slice or channel) and no function assigns, indexes into, deletes from or takes the address of one *)
+  Extracted.package_vars = ["DefaultMethodNameFormatter"; "_defaultHTTPClient"; "connectionTypeCtxKey"; "contextType"; "debugTrace";
+    "errorCodecRT"; "errorType"; "log"; "marshalableRT"; "maxQueuedFrames"; "onReadDeadlineResetInterval"; "rtRawParams"; "upgrader"]%string /\
+  Extracted.package_state_mutations = [].
 Proof. repeat split; reflexivity. Qed.
 
 (* the caller of a panicking method gets an error whose message spells out the panic value; exactly that
